@@ -63,7 +63,7 @@ Proof. exact renominate_needs_controlling_and_feature. Qed.
 Print Assumptions C20_only_controlling_with_feature.
 
 Theorem C20_renomination_request : forall cfg l r v s p,
-  s_ctl s = true -> cf_renomination cfg = true -> find_pair l r s = Some p ->
+  s_ctl s = true -> cf_renomination cfg = true -> find_pair l r s = Some p -> p_state p = CandidatePairStateSucceeded ->
   snd (do_renominate cfg l r v s) =
     [OSend (c_h (p_loc p)) (c_addr (p_rem p))
        (mkMsg 0 1 (s_next_tx s) (Some (s_rufrag s, s_lufrag s)) (Some (s_rpwd s)) true
@@ -71,6 +71,13 @@ Theorem C20_renomination_request : forall cfg l r v s p,
      ORet ROk].
 Proof. exact renominate_sends_value. Qed.
 Print Assumptions C20_renomination_request.
+
+(* a pair whose own check has not been answered cannot be (re)nominated through the API (repaired: afd0894) *)
+Theorem C20_renomination_needs_valid_pair : forall cfg l r v s p,
+  s_ctl s = true -> cf_renomination cfg = true -> find_pair l r s = Some p -> p_state p <> CandidatePairStateSucceeded ->
+  do_renominate cfg l r v s = (s, [ORet RErrPairNotSucceeded]).
+Proof. exact renominate_needs_valid_pair. Qed.
+Print Assumptions C20_renomination_needs_valid_pair.
 
 (* non-vacuity: a controlled agent on a valid low-priority pair, selected pair of higher priority:
    value 2 after 1 switches to the low-priority pair; value 1 again does not *)
